@@ -49,6 +49,10 @@ func init() { runners["C19"] = runC19 }
 //	    exec                 authz MsgExec of the messages in `in`
 //	    grant                authz MsgGrant of a GenericAuthorization for message type `url`
 //	    grantsend            authz MsgGrant of a bank SendAuthorization
+//	    grantpanic           authz MsgGrant of a staking StakeAuthorization of UNSPECIFIED type: asking it for its message type
+//	                         (MsgTypeURL, which the authz limiter does for every grant) panics.  The walk of the limiter ends
+//	                         there; baseapp turns the panic into a rejection (code 111222), which the harness reports as
+//	                         the limiter's own refusal (code 4).  Projected onto the model as a grant the limiter refuses.
 type c19Node struct {
 	K   string    `json:"k"`
 	URL string    `json:"url,omitempty"`
@@ -192,6 +196,12 @@ func (f *c19Fix) msg(n c19Node) sdk.Msg {
 			panic(err)
 		}
 		return m
+	case "grantpanic":
+		m, err := authz.NewMsgGrant(f.addr, f.other, &stakingtypes.StakeAuthorization{AuthorizationType: stakingtypes.AuthorizationType_AUTHORIZATION_TYPE_UNSPECIFIED}, nil)
+		if err != nil {
+			panic(err)
+		}
+		return m
 	}
 	panic("c19: unknown node kind " + n.K)
 }
@@ -215,6 +225,8 @@ func (f *c19Fix) term(n c19Node) string {
 		return App("MGrant", B(f.disabled[n.URL]))
 	case "grantsend":
 		return App("MGrant", "false")
+	case "grantpanic":
+		return App("MGrant", "true")
 	}
 	panic("c19: unknown node kind " + n.K)
 }
@@ -383,6 +395,11 @@ func (f *c19Fix) shapes() []c19Shape {
 		{"exec[]", []c19Node{c19Exec()}},
 		{"no-messages", []c19Node{}},
 		{"exec[vest0]", []c19Node{c19Exec(c19Leaf("vest0"))}},
+		{"grantpanic", []c19Node{c19Leaf("grantpanic")}},
+		{"grantpanic,exec[eth]", []c19Node{c19Leaf("grantpanic"), c19Exec(eth)}},
+		{"exec[eth],grantpanic", []c19Node{c19Exec(eth), c19Leaf("grantpanic")}},
+		{"send,exec[grantpanic,eth]", []c19Node{send, c19Exec(c19Leaf("grantpanic"), eth)}},
+		{"grantpanic,nest8(send)", []c19Node{c19Leaf("grantpanic"), c19Nest(8, send)}},
 		{"send,exec[exec[vest1]]", []c19Node{send, c19Exec(c19Exec(c19Leaf("vest1")))}},
 	}
 	for i, u := range f.disURLs {
@@ -530,6 +547,26 @@ func c19Depth(msgs []c19Node) int {
 	return d
 }
 
+// c19HasPanicGrant: does the forest contain a grant on which the authz limiter panics
+func c19HasPanicGrant(msgs []c19Node) bool {
+	for _, m := range msgs {
+		if m.K == "grantpanic" || c19HasPanicGrant(m.In) {
+			return true
+		}
+	}
+	return false
+}
+
+// c19Canon maps the response code of a panic recovered by the application (111222) in a transaction that carries a
+// panicking grant onto the refusal of the authz limiter, inside which that panic is raised
+func c19Canon(e *Env, t c19Tx, code uint32) uint32 {
+	if code == 111222 && c19HasPanicGrant(t.Msgs) {
+		e.Stats.Count("panic-inside-authz-limiter-reported-as-its-refusal")
+		return 4
+	}
+	return code
+}
+
 func c19HasStructure(t c19Tx) bool {
 	if len(t.Opts) > 0 {
 		return true
@@ -589,7 +626,7 @@ func runC19(e *Env) {
 		routes := [][]string{{}, {}, {}, {}, {"web3"}, {"web3"}, {"web3"}, {"eth"}, {"dyn"}, {"web3", "dyn"}, {"eth", "web3"}, {"web3", "eth"}}
 		dis := []c19Node{c19Leaf("eth"), c19Leaf("eth"), c19Leaf("eth"), c19Leaf("eth"), c19Leaf("vest0"), c19Leaf("vest1"), c19Leaf("vest2"),
 			c19Grant(f.disURLs[0]), c19Grant(f.disURLs[0]), c19Grant(f.disURLs[1]), c19Grant(f.disURLs[2]), c19Grant(f.disURLs[3]),
-			c19Exec(c19Leaf("eth")), c19Exec(c19Grant(f.disURLs[1+e.Pick(3)]))}
+			c19Exec(c19Leaf("eth")), c19Exec(c19Grant(f.disURLs[1+e.Pick(3)])), c19Leaf("grantpanic")}
 		harmless := []c19Node{c19Leaf("send"), c19Leaf("delegate"), c19Exec(c19Leaf("send")), c19Exec(), c19Grant(sendURL), c19Leaf("grantsend"),
 			c19Grant(f.disURLs[0] + "x"), c19Exec(c19Exec(c19Leaf("send")))}
 		for i := 0; i < nTrees; i++ {
@@ -692,6 +729,7 @@ func runC19(e *Env) {
 				urls, code = []string{"<not encodable>"}, 999999
 				f.lastBz = nil
 			}
+			code = c19Canon(e, t, code)
 			e.Stats.Evaluations++
 			var ms []string
 			for _, n := range t.Msgs {
@@ -732,10 +770,10 @@ func runC19(e *Env) {
 			codes := f.deliverBatch(bzs)
 			var dterms []string
 			k := 0
-			for _, b := range blt {
+			for bi2, b := range blt {
 				code := uint32(999999)
 				if b.bz != nil {
-					code = codes[k]
+					code = c19Canon(e, kase.Txs[bi2], codes[k])
 					k++
 				}
 				e.Stats.Evaluations++
